@@ -63,7 +63,8 @@ def _history(fe):
                                   'token': st.one_of(st.none(), st.none(), st.binary(max_size=8).map(bytes.hex)),
                                   'reencoded': st.sampled_from([False, False, True])})
     frag = st.fixed_dictionaries({'op': st.just('frag'), 'of': st.integers(0, 5), 'kind': st.sampled_from(['data', 'nack', 'interest']),
-                                  'fi': st.integers(0, 3), 'fc': st.integers(2, 4)})
+                                  'fi': st.integers(0, 3), 'fc': st.integers(2, 4),
+                                  'after': st.sampled_from([None, None, 'token', 'mark', 'payload'])})
     interest = st.fixed_dictionaries({'op': st.just('interest'), 'name': nm,
                                       'token': st.one_of(st.none(), st.binary(max_size=40).map(bytes.hex),
                                                          st.binary(min_size=1, max_size=8).map(bytes.hex),
@@ -115,8 +116,15 @@ def _run(fe, ops, full, r, flags, trace):
         attach([net.comp('h')])
         attach([net.comp('h'), net.comp('a')])
 
-        def send(pkt, env, token=None, nack=False, reason=None, fi=None, fc=None):
-            if full or nack or fi is not None:
+        def send(pkt, env, token=None, nack=False, reason=None, fi=None, fc=None, frag_after=None):
+            if frag_after is not None:
+                # a fragment whose sender wrote the fragmentation headers out of place (behind the PitToken / the CongestionMark /
+                # the payload): it is a fragment all the same
+                flags.add('fragment-headers-out-of-place')
+                w = net.lp_wrap(pkt, nack_reason=reason, nack=nack, pit_token=b'\x07' if frag_after == net.PIT_TOKEN else None,
+                                extra=[(0x0340, b'\x01')] if frag_after == 0x0340 else [], frag_index=fi, frag_count=fc,
+                                frag_after=frag_after)
+            elif full or nack or fi is not None:
                 ex = _extra(env) if full else []
                 # every other unassigned header type stands BEHIND the Fragment (ignored there as anywhere else)
                 unknown = [e for e in ex if e[0] not in KNOWN_HEADERS]
@@ -191,12 +199,13 @@ def _run(fe, ops, full, r, flags, trace):
                     continue
                 flags.add('fragmented')
                 fi = op['fi'] % op['fc']
+                fa = {None: None, 'token': net.PIT_TOKEN, 'mark': 0x0340, 'payload': net.FRAGMENT}[op.get('after')]
                 if op['kind'] == 'data':
-                    send(net.data_wire(e['name'], content=b'c'), [], fi=fi, fc=op['fc'])
+                    send(net.data_wire(e['name'], content=b'c'), [], fi=fi, fc=op['fc'], frag_after=fa)
                 elif op['kind'] == 'nack':
-                    send(e['h'].wire, [], nack=True, reason=50, fi=fi, fc=op['fc'])
+                    send(e['h'].wire, [], nack=True, reason=50, fi=fi, fc=op['fc'], frag_after=fa)
                 else:
-                    send(net.interest_wire([net.comp('h'), net.comp('z')], nonce=1), [], fi=fi, fc=op['fc'])
+                    send(net.interest_wire([net.comp('h'), net.comp('z')], nonce=1), [], fi=fi, fc=op['fc'], frag_after=fa)
                 trace.append('F')
             elif k == 'interest':
                 name = [net.comp('h')] + [net.comp(x) for x in op['name']]
